@@ -482,6 +482,7 @@ package kbin
 //@   modifies b.Src, b.bad
 //@   ensures len(b.Src) <= old(len(b.Src)) && (old(b.bad) ==> b.bad)
 //@   ensures len(s) <= old(len(b.Src))
+//@   ensures !b.bad ==> old(len(b.Src)) >= 4 && len(b.Src) <= old(len(b.Src)) - 4
 
 //@ func (b *Reader) CompactBytes() (s []byte)
 //@   mode bv
@@ -550,3 +551,100 @@ package kbin
 //@   nopanic
 //@   pure
 //@   ensures ok <==> !b.bad
+
+// ---- string readers: they only advance (or poison) the reader ----
+
+//@ func UnsafeString(slice []byte) (s string)
+//@   trusted unsafe/reflect header cast: assumed to behave like string(slice)
+//@   pure
+//@   ensures len(s) == len(slice)
+
+//@ func (b *Reader) String() (s string)
+//@   mode bv
+//@   prop C17 C16
+//@   nopanic
+//@   modifies b.Src, b.bad
+//@   ensures len(b.Src) <= old(len(b.Src)) && (old(b.bad) ==> b.bad)
+//@   ensures len(s) <= old(len(b.Src))
+
+//@ func (b *Reader) UnsafeString() (s string)
+//@   mode bv
+//@   prop C17 C16
+//@   nopanic
+//@   modifies b.Src, b.bad
+//@   ensures len(b.Src) <= old(len(b.Src)) && (old(b.bad) ==> b.bad)
+//@   ensures len(s) <= old(len(b.Src))
+
+//@ func (b *Reader) CompactString() (s string)
+//@   mode bv
+//@   prop C17 C16
+//@   nopanic
+//@   modifies b.Src, b.bad
+//@   ensures len(b.Src) <= old(len(b.Src)) && (old(b.bad) ==> b.bad)
+//@   ensures len(s) <= old(len(b.Src))
+
+//@ func (b *Reader) UnsafeCompactString() (s string)
+//@   mode bv
+//@   prop C17 C16
+//@   nopanic
+//@   modifies b.Src, b.bad
+//@   ensures len(b.Src) <= old(len(b.Src)) && (old(b.bad) ==> b.bad)
+//@   ensures len(s) <= old(len(b.Src))
+
+//@ func (b *Reader) NullableString() (s *string)
+//@   mode bv
+//@   prop C17 C16
+//@   nopanic
+//@   modifies b.Src, b.bad
+//@   ensures len(b.Src) <= old(len(b.Src)) && (old(b.bad) ==> b.bad)
+
+//@ func (b *Reader) UnsafeNullableString() (s *string)
+//@   mode bv
+//@   prop C17 C16
+//@   nopanic
+//@   modifies b.Src, b.bad
+//@   ensures len(b.Src) <= old(len(b.Src)) && (old(b.bad) ==> b.bad)
+
+//@ func (b *Reader) CompactNullableString() (s *string)
+//@   mode bv
+//@   prop C17 C16
+//@   nopanic
+//@   modifies b.Src, b.bad
+//@   ensures len(b.Src) <= old(len(b.Src)) && (old(b.bad) ==> b.bad)
+
+//@ func (b *Reader) UnsafeCompactNullableString() (s *string)
+//@   mode bv
+//@   prop C17 C16
+//@   nopanic
+//@   modifies b.Src, b.bad
+//@   ensures len(b.Src) <= old(len(b.Src)) && (old(b.bad) ==> b.bad)
+
+//@ func (b *Reader) VarintString() (s string)
+//@   mode bv
+//@   prop C17 C16
+//@   nopanic
+//@   modifies b.Src, b.bad
+//@   ensures len(b.Src) <= old(len(b.Src)) && (old(b.bad) ==> b.bad)
+//@   ensures len(s) <= old(len(b.Src))
+
+//@ func (b *Reader) UnsafeVarintString() (s string)
+//@   mode bv
+//@   prop C17 C16
+//@   nopanic
+//@   modifies b.Src, b.bad
+//@   ensures len(b.Src) <= old(len(b.Src)) && (old(b.bad) ==> b.bad)
+//@   ensures len(s) <= old(len(b.Src))
+
+//@ func (b *Reader) Float64() (f float64)
+//@   mode bv
+//@   prop C17 C16
+//@   nopanic
+//@   modifies b.Src, b.bad
+//@   ensures len(b.Src) <= old(len(b.Src)) && (old(b.bad) ==> b.bad)
+
+//@ func (b *Reader) Uuid() (u [16]byte)
+//@   mode bv
+//@   prop C17 C16
+//@   nopanic
+//@   modifies b.Src, b.bad
+//@   ensures len(b.Src) <= old(len(b.Src)) && (old(b.bad) ==> b.bad)
